@@ -17,7 +17,7 @@ func init() {
 		ID:     "C15",
 		Rule:   "every civil day in the year set (thorough: all days 1..9998) x first weekday 0..6: week first day, 7 consecutive days, in-month days, index in month and year, Next(n,false) and Next(n,true) for the step alphabet (and back), compared with integer day-number arithmetic; every month x start: GetWeeks against the distinct weeks meeting the month and GetWeeksOfMonth; every month/season/half-year/year: members, index, Next. non-trivial = weeks that span two months or the 1582 switch, and month-separated steps that change month",
 		Assume: []string{"R1 weekday and month lengths", "a month-separated week position is (year, month, index); a week spanning two months occupies the last position of the first month and the first of the next, as the property words it"},
-		Shards: func(tier string, seed int64) []Shard { return yearShards(tier, seed, 9998, "") },
+		Shards: func(tier string, seed int64) []Shard { return yearShardsWith(tier, seed, 9998, "", cycleYears()) },
 		Run:    runC15,
 		Bounds: func(tier string) map[string]interface{} {
 			return map[string]interface{}{"week_steps": weekSteps, "starts": "0..6"}
@@ -135,6 +135,27 @@ func runC15(w *W) {
 			wantIY := (F-weekStartOf(r1JDN(d.Y, 1, 1), s))/7 + 1
 			if got := wk.GetIndexInYear(); got != wantIY {
 				w.Viol("C15:GetIndexInYear:"+d.Ymd, fmt.Sprintf("%s: index in year %d, reference %d", where, got, wantIY), where)
+			}
+			// far whole-week steps (whole 400-year cycles = 20871 weeks and neighbours), one first weekday per day
+			if s == d.J%7 {
+				for _, n := range []int{20871, -20871, 41742, -41742, 20870, -20872, 5218, -5218} {
+					tj := d.J + 7*n
+					if tj-7 < jdnFirst || tj+7 > lastOK {
+						continue
+					}
+					var nx *calendar.SolarWeek
+					if msg, p := try(func() { nx = wk.Next(n, false) }); p {
+						w.Viol(fmt.Sprintf("C15:Next(%d,false):panic:%s", n, d.Ymd), msg, where)
+						continue
+					}
+					w.R.Transitions++
+					ty, tm, td := r1FromJDN(tj)
+					if nx.GetYear() != ty || nx.GetMonth() != tm || nx.GetDay() != td || nx.GetFirstDay().ToYmd() != r1Ymd(F+7*n) {
+						w.Viol(fmt.Sprintf("C15:Next(%d,false):%s", n, d.Ymd), fmt.Sprintf("%s: Next(%d,false) = %d-%d-%d (first day %s), reference = week of %s", where, n, nx.GetYear(), nx.GetMonth(), nx.GetDay(), nx.GetFirstDay().ToYmd(), r1Ymd(tj)), where)
+					} else if bk := nx.Next(-n, false); bk.GetFirstDay().ToYmd() != r1Ymd(F) {
+						w.Viol(fmt.Sprintf("C15:Next(%d,false)back:%s", n, d.Ymd), "n whole weeks forward then back is not the same week", where)
+					}
+				}
 			}
 			// stepping
 			for _, n := range weekSteps {
